@@ -98,7 +98,12 @@ inline void expand(uint8_t* out, int shape, uint64_t seed, int satType, const st
 	for (int q = 0; q < 16; ++q) {
 		uint64_t v = r.u64b();
 		if (q == 8 || q == 10) { switch (r.below(4)) { case 0: v = 0; break; case 1: v = 0xffffffc0u; break; case 2: v = ~0ULL; break; default: break; } }
-		if (q == 13) { switch (r.below(6)) { case 0: v = 0; break; case 1: v = randomx::DatasetExtraItems; break; case 2: v = randomx::DatasetExtraItems + 1; break; case 3: v = ~0ULL; break; case 4: v = randomx::DatasetExtraItems - 1; break; default: break; } }
+		if (q == 13) {   // dataset offset = v % (DatasetExtraItems + 1) items: extremes, and the encodable-immediate boundaries (offset/64 and offset in bytes around 2^7, 2^8, 2^15, 2^16, 2^31)
+			switch (r.below(9)) { case 0: v = 0; break; case 1: v = randomx::DatasetExtraItems; break; case 2: v = randomx::DatasetExtraItems + 1; break; case 3: v = ~0ULL; break; case 4: v = randomx::DatasetExtraItems - 1; break;
+			case 5: { static const uint32_t b[] = {1, 2, 63, 64, 127, 128, 129, 255, 256, 257, 511, 512, 32767, 32768, 32769, 65535, 65536, 262143, 262144, 524286}; v = (v & ~0x7ffffULL) | b[r.below(20)]; break; }
+			case 6: v = (v & ~0x7ffffULL) | r.below(1024); break;
+			default: break; }
+		}
 		if ((q == 14 || q == 15) && r.chance(30)) v = r.chance(50) ? ~0ULL : 0;
 		memcpy(out + 8 * q, &v, 8);
 	}
